@@ -111,9 +111,7 @@ def slice_length(length: int, idx: AxisIndex) -> Optional[int]:
     if not isinstance(idx, slice):
         raise ValueError(f"Index expression {idx} is of an unrecognized type.")
     start, stop, stride = idx.indices(length)
-    if start > stop:
-        start = stop
-    return (stop - start + stride - 1) // stride
+    return len(range(start, stop, stride))
 
 
 def indexed_shape(shape: Shape, idx: ArrayIndex) -> Tuple[int, ...]:
